@@ -21,7 +21,7 @@ def sh(cmd, cwd=None, timeout=1800, env=None, inp=None):
     t0 = time.time()
     try:
         p = subprocess.run(cmd, cwd=cwd, env=env, input=inp, shell=isinstance(cmd, str),
-                           stdout=subprocess.PIPE, stderr=subprocess.STDOUT, text=True, timeout=timeout)
+                           stdout=subprocess.PIPE, stderr=subprocess.STDOUT, text=True, errors="replace", timeout=timeout)
         return p.returncode, p.stdout, time.time() - t0
     except subprocess.TimeoutExpired as e:
         o = e.stdout or ""
